@@ -11,6 +11,8 @@ count on every scan), K-trans, watchdog in ./check for hangs.
 -/
 import Daac.InvExtra
 import Daac.Proofs.Steps
+import Daac.Proofs.Steps2
+import Daac.Proofs.Rung2
 namespace Daac.Props.C13
 open Daac
 variable {V : Type} [DecidableEq V]
@@ -57,5 +59,33 @@ theorem scan_terminates (da : DA V) (P : List (LPat V)) (hT : da.tableInv P = tr
     (hok : ItemsOk da fuel src) (hf : src.rest.length < fuel) :
     scanSteps da fuel (da.idx u) src n ≠ .error .fuel :=
   scanSteps_ne_fuel hT (DA.sizeInv_depth hZ) hu hok hf
+
+
+/-! ### Rung 2 — every pattern collection, in the model of the builder -/
+
+/-- For EVERY collection and every `num_free_blocks`: if the model builder succeeds (standard
+kind), scanning any haystack that decodes takes at most two transitions per item, hence at most
+`2n` for `n` bytes, and the scan terminates. -/
+theorem steps_le_2n_build (variant : Variant) (nfb : Nat) (P : List (LPat V)) (da : DA V)
+    (hb : buildDA variant ⟨0, nfb⟩ P = .ok da) (hk : keysOk P)
+    (hlabels : variant = .bytewise → ∀ p ∈ P, ∀ c ∈ p.key, c < 256)
+    (h : List Nat) (items : List WItem)
+    (hi : allItems da.variant (h.length + 1) ⟨h, 0⟩ = .ok items)
+    (hl : ∀ w ∈ items, LabelOk da w.label) :
+    ∃ total, scanSteps da (h.length + 1) rootIdx (startSrc h) 0 = .ok total ∧
+      total ≤ 2 * items.length ∧ total ≤ 2 * h.length := by
+  obtain ⟨t, idx, hS, _, hL, hlab, hD⟩ := build_layout variant ⟨0, nfb⟩ P P da hb
+    (fun t ht => buildTrie_trieSem 0 (by decide) P t ht hk) (fun p hp => hp) hlabels
+  exact steps_le_2n_of_layout hL hS hlab hD hi hl
+
+/-- Termination of the leftmost kinds, every collection: the leftmost iterator returns (Props/C03,
+`leftmost_longest_correct_build_*`: `lmAll … = .ok _`), and the standard iterators return
+(Props/C01, C02, C05 `*_correct_build_*`). -/
+theorem leftmost_terminates_build (nfb : Nat) (Ps : List (Pat V)) (hV : ValidPats Ps)
+    (hbytes : ∀ p ∈ Ps, ∀ b ∈ p.key, b < 256) (da : DA V)
+    (hb : buildDA .bytewise ⟨1, nfb⟩ (Ps.map lpOf) = .ok da) (h : List Nat) (hh : ∀ b ∈ h, b < 256) :
+    ∃ l, lmAll da h = .ok (l, 0) := by
+  obtain ⟨l, h1, _⟩ := bytewise_leftmost_longest_correct nfb Ps hV hbytes da hb h hh
+  exact ⟨l, h1⟩
 
 end Daac.Props.C13
